@@ -61,6 +61,7 @@ type Exec struct {
 	absDivs  map[*Term]bool
 	mapTags  map[string]int64
 	entryAlloc *Term
+	pendingSelfType types.Type
 }
 
 type closureInfo struct {
@@ -1049,12 +1050,11 @@ func (fr *Frame) havocTargets(s, pre *State, targets []target, g *Term) {
 		case "all":
 			s.mem = map[string]*Term{}
 			s.ep = newEpoch()
-			for k := range s.ghost {
-				old := s.ghost[k]
-				s.ghost[k] = c.Fresh("ghost_"+sanitize(k), old.sort)
-				if k == "$clock" { // time only moves forward
-					x.assume(g, c.BVCmp("bvsge", s.ghost[k], old))
-				}
+			// ghost state is changed by contracts only; unknown code cannot touch it.
+			// The ghost wall clock may have advanced (time only moves forward).
+			if old, ok := s.ghost["$clock"]; ok {
+				s.ghost["$clock"] = c.Fresh("ghost_clock", old.sort)
+				x.assume(g, c.BVCmp("bvsge", s.ghost["$clock"], old))
 			}
 			x.note("havoc of the whole heap at a call or loop without a frame in " + shortKey(fr.key))
 			return
